@@ -88,7 +88,10 @@ def static_configs(thorough, seed):
                 mss = mss[seed % 3::3]
             for ms in mss:
                 pts = [lat[i] for i in ms]
-                hps = h_patterns(k, hv, k <= hfull or thorough)
+                # for k <= 2 also a smoothing length that makes the cell
+                # smaller than the unit box a lone particle is given
+                hps = h_patterns(k, hv + ([H0 / 2] if k <= 2 else []),
+                                 k <= hfull or thorough)
                 aps = arr_patterns(k)
                 if big and not thorough:
                     # quick tier: on the largest k keep the uniform and two
@@ -125,7 +128,9 @@ def sig_of(cfg):
     return 'general'
 
 
-CRUMB_DIR = '/var/tmp/pysph-verif/crumbs'
+import os as _os
+CRUMB_DIR = _os.path.join(_os.environ.get('VERIF_CACHE', '/var/tmp/pysph-verif'),
+                          'crumbs-' + _os.environ.get('VERIF_RUN_ID', 'x'))
 _crumb_fd = [None, None]
 
 
@@ -268,8 +273,16 @@ def apply_op(pas, loc, op, lat):
     return True
 
 
+def hist_class(base, seq):
+    """Degeneracy class reachable by a history (for skipping crashers)."""
+    ops = set(o[0] for o in seq)
+    if 'remove' in ops:
+        return 'history:with-remove'
+    return 'history:' + sig_of(base)
+
+
 def _history_job(args):
-    bases, depth, thorough = args
+    bases, depth, thorough, skip = args
     table = U.algos(False)
     # default + cached variant of every algorithm
     variants = []
@@ -288,7 +301,13 @@ def _history_job(args):
         k = len(base['pts'])
         ops = history_ops(dim, lat, k, 2)
         for name, kw in variants:
+            kwl = [list(x) for x in sorted(kw.items())]
             for seq in itertools.product(ops, repeat=depth):
+                klass = hist_class(base, seq)
+                if [name, kwl, klass] in skip:
+                    continue
+                crumb(dict(ident=[None, name, kwl], klass=klass,
+                           cfg=dict(base=base, seq=list(seq))))
                 # rebuild fresh arrays and ONE nnps object for the sequence
                 pas = U.make_arrays(base)
                 loc = []
@@ -343,7 +362,7 @@ def history_bases(thorough):
 # thread counts used to fill the cache
 # ---------------------------------------------------------------------------
 def _thread_job(args):
-    cfgs, counts = args
+    cfgs, counts, skip = args
     from pysph.base.nnps_base import set_number_of_threads
     table = U.algos(False)
     out = []
@@ -352,14 +371,22 @@ def _thread_job(args):
         set_number_of_threads(nt)
         for cfg in cfgs:
             pas = U.make_arrays(cfg)
+            ref = U.brute_all(pas)
+            klass = 'threads:' + sig_of(cfg)
             for name in table:
                 if name == 'DictBoxSortNNPS':
                     continue
                 kw = {'cache': True}
+                kwl = [['cache', True]]
+                if [name, kwl, klass] in skip or \
+                        [name, kwl, sig_of(cfg)] in skip:
+                    continue
+                crumb(dict(ident=[None, name, kwl], klass=klass,
+                           cfg=dict(cfg=cfg, threads=nt)))
                 try:
                     nn = U.make_nnps(name, cfg['dim'], pas, kw)
                     got = U.query_all(nn, pas, use_find_all=True)
-                    pr = U.check_lists(pas, got)
+                    pr = U.check_lists(pas, got, False, ref)
                 except Exception as e:  # noqa
                     pr = [('exception:%s' % type(e).__name__, repr(e))]
                 ne += 1
@@ -401,6 +428,13 @@ def run(ctx):
     def add(name, kind, kw, det, where, klass):
         knob = ','.join('%s=%s' % (k, v) for k, v in sorted(kw.items())
                         if k not in ('cache', 'sort_gids', 'threads'))
+        base_kind = kind.split(':')[-1]
+        if base_kind in ('missing', 'spurious', 'duplicate', 'invalid-index') \
+                and isinstance(det, (tuple, list)) and len(det) >= 2:
+            # list problems are keyed by whether the query crosses arrays
+            klass = 'same-array' if det[0] == det[1] else 'cross-array'
+            if kind.startswith('after-update') or kind.startswith('threads'):
+                kind = kind.split(':')[0] + ':' + base_kind
         key = 'nnps:%s:%s:%s' % (name, kind, klass)
         size = len(repr(where))
         if key not in viols or size < viols[key][0]:
@@ -450,35 +484,63 @@ def run(ctx):
                 for name, kind, kw, det, c in out:
                     add(name, kind, kw, det, dict(cfg=c), sig_of(c))
             pending = nxt
+    def run_phase(fn, payloads, ncpu, on_ok):
+        """Crash-resilient phase: a crashing (variant, class) is recorded,
+        added to the skip list and the job re-queued."""
+        pending = list(range(len(payloads)))
+        rounds = 0
+        while pending:
+            rounds += 1
+            if rounds > 300:
+                raise RuntimeError('too many crash rounds')
+            res = map_jobs(fn, [payloads[i] + (list(skip),) for i in pending],
+                           ncpu, job_timeout=1200)
+            nxt = []
+            for i, r in zip(pending, res):
+                if isinstance(r, Crash):
+                    cr = read_crumb(r.pid)
+                    if cr is None:
+                        raise RuntimeError('crash without breadcrumb: %r' % r)
+                    tag, name, kwl = cr['ident']
+                    add(name, 'crash', dict(kwl), r.reason, cr['cfg'],
+                        cr['klass'])
+                    ent = [name, kwl, cr['klass']]
+                    if ent not in skip:
+                        skip.append(ent)
+                    nxt.append(i)
+                else:
+                    on_ok(r)
+            pending = nxt
+
     # histories
     bases = history_bases(ctx.thorough)
     depth = 2
-    hjobs = [([b], depth, ctx.thorough) for b in bases]
-    hres = map_jobs(_history_job, hjobs, ctx.ncpu, job_timeout=900)
-    nhist = ntrans = 0
-    for job, r in zip(hjobs, hres):
-        if isinstance(r, Crash):
-            add('?', 'crash', {}, r.reason, dict(base=job[0]), 'history')
-            continue
+    hstat = [0, 0]
+
+    def h_ok(r):
         a, b, out = r
-        nhist += a
-        ntrans += b
+        hstat[0] += a
+        hstat[1] += b
         for name, kind, kw, det, where in out:
             add(name, kind, kw, det, where, 'history')
+    run_phase(_history_job, [([b], depth, ctx.thorough) for b in bases],
+              ctx.ncpu, h_ok)
+    nhist, ntrans = hstat
     # threads
     counts = [1, 2, 3, 4, 8, 16] if ctx.thorough else [2, 3, 16]
     tcfgs = dense_configs(ctx.seed) + cfgs[::max(1, len(cfgs) // 200)]
-    tjobs = [(tcfgs[i::8], counts) for i in range(8)]
-    tres = map_jobs(_thread_job, tjobs, min(ctx.ncpu, 8), job_timeout=900)
-    nthr = 0
-    for job, r in zip(tjobs, tres):
-        if isinstance(r, Crash):
-            add('?', 'crash', {}, r.reason, dict(), 'threads')
-            continue
+    tstat = [0]
+
+    def t_ok(r):
         n, out = r
-        nthr += n
+        tstat[0] += n
         for name, kind, kw, det, c in out:
             add(name, kind, kw, det, dict(cfg=c), 'threads')
+    run_phase(_thread_job, [(tcfgs[i::8], counts) for i in range(8)],
+              min(ctx.ncpu, 8), t_ok)
+    nthr = tstat[0]
+    import shutil as _sh
+    _sh.rmtree(CRUMB_DIR, ignore_errors=True)
     vs = [Violation(k, w, rep) for k, (sz, w, rep) in sorted(viols.items())]
     table = U.algos(ctx.thorough)
     cov = dict(
